@@ -288,7 +288,20 @@ pub fn run_session(lines: &[String]) -> SessionResult {
         println!("FP {:?}\n   real  {}\n   model {}", lines, real.fingerprint(), model.fingerprint());
     }
     let key = hash64(&(real.fingerprint(), model.fingerprint()));
-    drop(real);
+    // the end of the session: the compiler goes first, the machine must still own everything it holds; then
+    // the machine goes, and nothing may be released a second time
+    let Real { compiler, vm } = real;
+    let _ = verif::heap_events_take();
+    drop(compiler);
+    let after = vm.verif_fingerprint();
+    if problem.is_none() && after.contains("DEAD<") {
+        problem = Some(format!("after the compiler was dropped the machine holds a released value: {}", after.chars().take(300).collect::<String>()));
+    }
+    drop(vm);
+    let bad: Vec<String> = verif::heap_events_take().iter().filter(|e| e.kind == "use-after-free" || e.kind == "double-free").map(|e| format!("{}#{}", e.kind, e.serial)).collect();
+    if problem.is_none() && !bad.is_empty() {
+        problem = Some(format!("dropping the compiler and then the machine at the end of the session: {bad:?}"));
+    }
     verif::ledger_forget();
     SessionResult { problem, key, any_unspec, all_ok, steps }
 }
